@@ -112,6 +112,16 @@ Fixpoint write_toks (ts : list tok) : string :=
   match ts with [] => "" | t :: r => render t ++ write_toks r end.
 
 (* ---------- the reader (quick-xml Reader on well-formed input, svgdx settings) ---------- *)
+(* the '>' that ends a DOCTYPE: '<' and '>' of an internal subset (<!ENTITY ..>) nest *)
+Fixpoint scan_dt (s : string) (depth : nat) : option (string * string) :=
+  match s with
+  | EmptyString => None
+  | String c r =>
+      let keep o := match o with Some (a, b) => Some (String c a, b) | None => None end in
+      if Ascii.eqb c ">" then match depth with O => Some ("", r) | S d => keep (scan_dt r d) end
+      else if Ascii.eqb c "<" then keep (scan_dt r (S depth))
+      else keep (scan_dt r depth)
+  end.
 Definition is_quote (c : ascii) : bool := (Ascii.eqb c """" || Ascii.eqb c "'")%bool.
 (* find the '>' that ends a tag, skipping quoted attribute values: (content, rest) *)
 Fixpoint scan_tag (s : string) (q : option ascii) : option (string * string) :=
@@ -190,8 +200,8 @@ Definition read_markup (r : string) : option (tok * string) :=   (* r = input af
   | Some r1 => match find_sub "?>" r1 with Some (c, rest) => Some (TPI c, rest) | None => None end
   | None =>
   match strip_prefix "!DOCTYPE" r with
-  | Some r1 => match break_at (Ascii.eqb ">") r1 with
-               | (c, Some (_, rest)) => Some (TDoctype (skip_xws c), rest) | (_, None) => None end
+  | Some r1 => match scan_dt r1 0 with
+               | Some (c, rest) => Some (TDoctype (skip_xws c), rest) | None => None end
   | None =>
   match strip_prefix "/" r with
   | Some r1 => match break_at (Ascii.eqb ">") r1 with
